@@ -31,7 +31,7 @@ func cv(letter byte, args string) cmdVar {
 // pair, numbers in every notation, closepath followed by drawing.
 var cmdVars = []cmdVar{
 	cv('M', "2 2"), cv('m', "1 0"), cv('M', "0 0 1 1"), cv('m', "1 1 1 0"), cv('M', "1e2 .5"),
-	cv('L', "1 1"), cv('L', "2 1"), cv('L', "1 2"), cv('L', "3 3"), cv('l', "0 0"), cv('l', "1 0"), cv('l', "0 -1"), cv('l', "-.5 .5"), cv('L', "2 2 3 2 3 3"), cv('l', "1000 .001"), cv('L', "100 200"),
+	cv('L', "1 1"), cv('L', "2 1"), cv('L', "1 2"), cv('L', "3 3"), cv('l', "0 0"), cv('l', "1 0"), cv('l', "0 -1"), cv('l', "-.5 .5"), cv('L', "2 2 3 2 3 3"), cv('l', "1000 .001"), cv('L', "100 200"), cv('L', "1e100 7"), cv('l', "1e-100 100e100"), cv('L', "1000000 0.000001"),
 	cv('H', "2"), cv('h', "0"), cv('h', "-1"), cv('H', "1 2 3"), cv('V', "2"), cv('v', "0"), cv('v', "1.5"), cv('V', "100"),
 	cv('C', "1 1 2 2 2 2"), cv('C', "1 2 2 2 3 1"), cv('C', "4 0 5 0 5 1"), cv('c', "0 0 1 1 1 1"), cv('c', "0 1 1 1 2 0"), cv('c', "1 -1 2 -1 2 0"), cv('C', "0 0 0 0 0 0"), cv('C', "1 2 2 2 3 1 4 0 5 0 5 1"),
 	cv('S', "2 2 3 1"), cv('s', "1 1 2 0"), cv('S', "5 0 5 1"), cv('s', "0 0 1 1"), cv('S', "3 3 3 3"),
